@@ -123,6 +123,80 @@ class TFR(TFill):
         self.filled = []
 
 
+class TFCC(TFC):
+    """fill/compute element that forgets its values after compute (used inside an explicit Sequence object,
+    where the Run adapter fills one block and computes: every block stands for itself)."""
+
+    def compute(self):
+        res = list(self._results("c"))
+        self.filled = []
+        for r in res:
+            yield r
+
+
+def _tagged_run(self, flow):
+    n = 0
+    for v in flow:
+        n += 1
+        yield tag(self.b, "m", (v,))
+    yield tag(self.b, "end", (n,))
+
+
+class TFCRun(TFC):
+    """fill/compute element that can also run"""
+    run = _tagged_run
+
+
+class TFRRun(TFR):
+    """fill/request element that can also run (like lena.core.FillRequest)"""
+    run = _tagged_run
+
+
+# ---- what == says about a branch element (kind field eq): the schedule must not depend on it
+class EqAll(object):
+    """equal to every object"""
+
+    def __eq__(self, other):
+        return True
+
+    def __ne__(self, other):
+        return False
+
+    def __hash__(self):
+        return 7
+
+
+class EqTot(object):
+    """like lena.math.Sum: equal to another such element when the totals of the values held coincide"""
+
+    def _total(self):
+        return sum(x for x in getattr(self, "filled", ()) if type(x) is int)
+
+    def __eq__(self, other):
+        if not isinstance(other, EqTot):
+            return NotImplemented
+        return self._total() == other._total()
+
+    def __ne__(self, other):
+        r = self.__eq__(other)
+        return r if r is NotImplemented else not r
+
+    def __hash__(self):
+        return 11
+
+
+_EQ_CLASSES = {}
+
+
+def with_eq(cls, eq):
+    """The harness class *cls* with the equality *eq* ("id": as it is)."""
+    if eq in (None, "id"):
+        return cls
+    if (cls, eq) not in _EQ_CLASSES:
+        _EQ_CLASSES[(cls, eq)] = type(cls.__name__ + "_eq" + eq, ({"all": EqAll, "tot": EqTot}[eq], cls), {})
+    return _EQ_CLASSES[(cls, eq)]
+
+
 class TFilt(object):
     def __init__(self, b):
         self.b, self.runs = b, 0
@@ -183,6 +257,9 @@ class SliceReset(object):
         self.sl.__init__(self.stop)
 
 
+SEQ_OBJ_FORMS = ("sq", "sqpp", "sqin")      # SeqObjForms of SplitSem.tla
+
+
 class Builder(object):
     """Builds the real branch objects of a list of kind records; remembers what the harness must reset
     between two runs of the same Split object."""
@@ -198,16 +275,23 @@ class Builder(object):
         t = kind["t"]
         stop = None if kind.get("stop", NONE) == NONE else kind["stop"]
         m = None if kind.get("m", NONE) == NONE else kind["m"]
+        form, eq = kind.get("form", "el"), kind.get("eq", "id")
         if t in ("fc", "fr"):
-            el = (TFC if t == "fc" else TFR)(b, stop, m)
+            if form in SEQ_OBJ_FORMS:
+                cls = TFCC if t == "fc" else TFRRun
+            elif form == "run":
+                cls = TFCRun if t == "fc" else TFRRun
+            else:
+                cls = TFC if t == "fc" else TFR
+            el = with_eq(cls, eq)(b, stop, m)
             self.resettable.append(el)
             return el
         if t == "map":
-            return TMap(b)
+            return with_eq(TMap, eq)(b)
         if t == "filt":
-            return TFilt(b)
+            return with_eq(TFilt, eq)(b)
         if t == "seq":
-            return TSeq(b)
+            return with_eq(TSeq, eq)(b)
         raise ValueError(kind)
 
     def branch(self, b, kind):
@@ -220,7 +304,7 @@ class Builder(object):
                                    bufsize=None if ibs == NONE else ibs)
         if t == "src":
             m = 2 if kind.get("m", NONE) == NONE else kind["m"]
-            gen = TSrc(b, m)
+            gen = with_eq(TSrc, kind.get("eq", "id"))(b, m)
             if form == "el":
                 return lena.core.Source(gen)
             if form == "obj":
@@ -242,9 +326,18 @@ class Builder(object):
             return (sl, el)
         el = self.element(b, kind)
         if form == "el":
-            if t == "map":
+            if t == "map" and kind.get("eq", "id") == "id":
                 return lambda v: tag(b, "m", (v,))
             return el
+        if form == "run":
+            return el
+        if form == "sq":
+            # an explicit Sequence object is a plain Sequence whatever it holds
+            return lena.core.Sequence(el)
+        if form == "sqpp":
+            return lena.core.Sequence(_pre, el, _post)
+        if form == "sqin":
+            return lena.core.Sequence(lena.core.FillComputeSeq(el))
         if form == "tup":
             return (el,)
         if form == "pp":
